@@ -114,7 +114,15 @@ def run(ctx):
                                           "revision load, so the reported revision can be newer than the returned data (resync from revision+1 "
                                           "misses an entry)" % ("guard dropped before the load" if released else "load precedes the lock"), loc(b, ri))
                     if not vs:
-                        ctx.ok("C25-a", "%s#no-data-view" % key, "result built without reading data (empty result): any revision is consistent", loc(b, ai))
+                        # fail closed: only a result whose entries are a freshly created empty Vec is exempt; entries that come from any
+                        # other source (multi_get, a concurrent map, a helper) are a data view the rule cannot order against the revision
+                        eo = agg_field(st, "entries")
+                        es = Slice(F, b, through_calls=True).operand(eo) if eo is not None else None
+                        srcs = [x for x in (es.sources if es else []) if x[0] in ("call", "field", "param", "upvar")]
+                        empty = es is not None and all(x[0] == "call" and re.search(r"Vec(::<.*>)?::(new|with_capacity)$|vec::from_elem$", strip_generics(x[1])) for x in srcs)
+                        ctx.check("C25-a", "%s#no-data-view" % key, empty, "result built without reading data (empty Vec): any revision is consistent",
+                                  "UNRECOGNISED-FORM: ScanResult.entries come from %s, which is neither a RocksDB iterator/snapshot nor a lock guard on the data: the rule cannot "
+                                  "order the data view against the revision load" % sorted(set(strip_generics(x[1]).split("::")[-1] if x[0] == "call" else str(x[1:]) for x in srcs))[:5], loc(b, ai))
                 # ---------------------------------------------------------------- C25-d prefix filter
                 for (pi, pt) in calls_matching(b, r"alloc::vec::Vec::push$"):
                     ps = Slice(F, b).operand(pt["args"][1])
